@@ -42,7 +42,10 @@ def _replay(item):
     """one TLC behaviour: path (requests with expected cache), last request with the demanded outcome"""
     sid, beh = item
     sh = _shapes[sid]
-    w = dc.World(sh['shape'])
+    try:
+        w = dc.World(sh['shape'])
+    except Exception as e:   # the class / the module cannot even be created
+        return {'clauses': ['node.build'], 'step': 0, 'req': None, 'expected': None, 'observed': repr(e)[:200], 'before': {}}
     if w.cache() != sh['cache']:
         return {'clauses': ['init.cache'], 'step': 0, 'req': None, 'expected': sh['cache'], 'observed': w.cache(),
                 'before': {}}
@@ -124,7 +127,9 @@ def run(chk):
                             sort_keys=True), nontriv)
         if bad:
             if bad['req'] is None or bad['clauses'][0] in ('setup', 'init.cache'):
-                sig = {'module': 'Dispatch', 'clause': bad['clauses'][0], 'shape': beh['sid']}
+                consts = sorted({x['dt']['t'] for x in _shapes[sid]['shape']['m'].values()
+                                 if x['kind'] == 'param' and x['const'] != dc.NULL})
+                sig = {'module': 'Dispatch', 'clause': bad['clauses'][0], 'shape': beh['sid'][0], 'constants': consts}
             else:
                 sig = dc.signature(_shapes[sid]['shape'], bad['req'], bad['clauses'], bad['observed'], bad['before'])
             chk.violation(sig, {'sid': beh['sid'], 'behaviour': beh, **bad})
